@@ -248,8 +248,9 @@ pub fn run(args: &[String]) -> i32 {
             continue;
         }
         let case: Value = serde_json::from_str(&line).expect("json");
-        let f = case["fn"].as_str().unwrap_or("");
+        let f = if case.get("codec").is_some() { "codec" } else { case["fn"].as_str().unwrap_or("") };
         let o = match f {
+            "codec" => crate::codecs::run_case(&case),
             "footer" => run_footer(&case),
             "adaptive" => run_adaptive(&case),
             "snippet" => run_snippet(&case),
